@@ -61,6 +61,9 @@ func c09Corpus(thorough bool) []c09Input {
 			"api/api.go":   pk("api", "import \"vx/conv\"\n\n// goverter:variables\n// goverter:extend vx/conv:.*Name\n// goverter:extend Fallback\nvar (\n\tConvB func(source conv.In) conv.Out\n)\n\nfunc Fallback(s int) string { return \"\" }\n"),
 			"fn/fn.go":     pk("fn", "import \"vx/conv\"\n\n// goverter:converter\n// goverter:output:format function\n// goverter:extend vx/conv:.*Name\n// goverter:extend Fallback\ntype F interface {\n\tConvF(source conv.In) conv.Out\n}\n\nfunc Fallback(s int) string { return \"\" }\n"),
 		}, []string{"./conv", "./api", "./fn"}},
+		{"cwd-relative-and-file-relative-outputs", map[string]string{
+			"internal/conv/conv.go": pk("conv", c09Types+"\n// goverter:converter\n// goverter:output:file @cwd/gen/conv_gen.go\n// goverter:output:package vx/gen\ntype A1 interface {\n\tConvert(source In) Out\n}\n\n// goverter:converter\n// goverter:output:file ../x/x_gen.go\n// goverter:output:package vx/internal/x\ntype A2 interface {\n\tConvert(source []In) []Out\n}\n\n// goverter:variables\n// goverter:output:file @cwd/gen/vars_gen.go\n// goverter:output:package vx/gen\nvar (\n\tConvV func(source In) Out\n)\n"),
+		}, []string{"./internal/conv"}},
 		{"ambiguous-fields-and-missing", map[string]string{"a/a.go": pk("a", "type In struct{ NAME string; NaMe string; nAME string; X int }\ntype Out struct{ Name string; Y int; Z int }\n\n// goverter:converter\n// goverter:matchIgnoreCase\ntype C interface {\n\tConvert(source In) Out\n}\n")}, []string{"./a"}},
 	}
 	if thorough {
@@ -276,7 +279,7 @@ func envProduct(run *ev.Run, base string) {
 						break
 					}
 					slash = append(slash, p+"/")
-					unclean = append(unclean, "./"+strings.TrimPrefix(p, "./")+"/../"+strings.TrimPrefix(p, "./"))
+					unclean = append(unclean, "./"+strings.TrimPrefix(p, "./")+"/../"+filepath.Base(p))
 					abs = append(abs, filepath.Join(rootA, strings.TrimPrefix(p, "./")))
 				}
 				if slash != nil {
